@@ -2,6 +2,7 @@
 # usage: tools/benign_test.sh <patch.diff> [checks...]  — apply a behaviour-preserving patch to /repo, run the quick checks,
 # restore /repo. Any VIOLATION line is a false alarm (or, with no-failing-input-found, a tie the rewrite broke).
 cd /verif
+rm -rf /var/tmp/evidence.keep.$$; cp -a /verif/evidence /var/tmp/evidence.keep.$$   # evidence belongs to runs on the unchanged tree
 PATCH=$1; shift; CHECKS="$*"
 [ -z "$CHECKS" ] && CHECKS="C01 C02 C03 C04 C05 C06 C07 C08 C09 C10 C11 C12 C13 C14 C15 C16 C17 C18 C19 C20"
 git -C /repo apply $PATCH || { echo "PATCH DOES NOT APPLY: $PATCH"; exit 2; }
@@ -14,4 +15,5 @@ for P in $CHECKS; do
 done
 git -C /repo checkout -- .
 python3 translate/tables.py lean >/dev/null; python3 translate/terms.py lean >/dev/null; python3 translate/uff.py lean >/dev/null
+rm -rf /verif/evidence; mv /var/tmp/evidence.keep.$$ /verif/evidence
 echo "done $PATCH"
